@@ -26,13 +26,14 @@ ASSUMPTIONS = [
     'event schedules: every value passes through the event option parser (a ValueError there is the 400 answer); interval text from {-7, -1, 0, 1, 7}, event timescale text from {0, 1, 100}, start/count/duration any integer in [-2**40, 2**40] (count <= 6 for out-of-band listings, which materialise every event); one segment [a, a+d), a 0..2**40, d 1..8 ticks of a 100 Hz representation',
     'a kernel that passes the unwinding bound is replayed concretely under a 2 s alarm and reported as "runs without bound" if it does not return',
     'UTF-8 decoding of a symbolic byte >= 0x80 inside the MP4 parser is nondeterministic: either UnicodeDecodeError or one character per byte',
+    'io.BufferedReader.read(n) (lazy loading reads box payloads through one) raises MemoryError in CPython when n is beyond anything allocatable; the stream model returns the available bytes instead - that corner was examined by concrete single-byte mutation of the encrypted fixtures (fix aee96b3), not by the solver',
     '"reported parse error" for Mp4Atom.load = an exception of the family (ValueError, struct.error, EOFError, IOError); nothing between the parser and the HTTP response catches anything else',
 ]
 OUTSIDE = [
     'the HTTP surface as such: router, HTML/REST management endpoints, database state, uploads through werkzeug',
     'non-ASCII query text; option strings longer than the stated bounds (date-time option values are covered by C19 on their grammar)',
     'Jinja template rendering with out-of-range option values (C05), including the out-of-band SCTE-35 XML payload',
-    'MP4 corruption other than: one 4-byte payload word of a box (same value windows plus 2**31 +-8 and 2**32-9..2**32-1), the 32-bit size field of one box (any value in [0,24], true size +-8, distance to end of file +-8, >= 2**31-1) and input cut at any of the 13 bytes from a box start; bit flips in box payloads are covered for non-structural bytes by C04.exc',
+    'MP4 corruption other than: one 4-byte payload word of a box (value windows [0,24], true value +-8, 2**31 +-8, 2**32-9..2**32-1), the 32-bit size field of one box (any value in [0,24], true size +-8, distance to end of file +-8, >= 2**31-1) and input cut at any of the 13 bytes from a box start; bit flips in box payloads are covered for non-structural bytes by C04.exc',
 ]
 
 INTERVALS = [-7, -1, 0, 1, 7]
@@ -778,17 +779,16 @@ def scen_mp4(G, name, box, lazy, mode):
         sz = ((bs[0] * 256 + bs[1]) * 256 + bs[2]) * 256 + bs[3]
         # every value behaves differently up to the end of the file; the claim covers the windows
         # where the arithmetic changes: tiny values, the true value +-8, the end of the file +-8, huge
-        wins = [sz <= 24, sx_and(sz >= true_val - 8, sz <= true_val + 8),
-                sx_and(sz >= len(data) - start - 8, sz <= len(data) - start + 8)]
+        wins = [sz <= 24, sx_and(sz >= true_val - 8, sz <= true_val + 8)]
         if mode == 'word':
             wins += [sx_and(sz >= 2 ** 31 - 9, sz <= 2 ** 31 + 8), sz >= 2 ** 32 - 9]
         else:
-            wins += [sz >= 2 ** 31 - 1]
-        G.sx.assume(sx_or(*wins), 'field value in [0,24], true value +-8, distance to end of file +-8, around 2**31 / 2**32')
+            wins += [sx_and(sz >= len(data) - start - 8, sz <= len(data) - start + 8), sz >= 2 ** 31 - 1]
+        G.sx.assume(sx_or(*wins), 'field value in [0,24], true value +-8, (sizes: distance to end of file +-8, >= 2**31-1) (words: 2**31 +-8, >= 2**32-9)')
         buf = SymBytes.make(data, {start + i: bs[i] for i in range(4) if not isinstance(bs[i], int)})
         if cut is not None:
             buf = buf[:cut]
-        core.ctx().env['range_limit'] = 100000
+        core.ctx().env['range_limit'] = 20000
         core.ctx().env['utf8_nondet'] = True
 
     def run():
@@ -887,13 +887,26 @@ def instances(tier):
                     out.append({'name': f'mp4[{name},{path}@{start},{"lazy" if lazy else "eager"},{mode}]', 'fn': h_mp4,
                                 'params': {'name': name, 'box': k, 'lazy': lazy, 'mode': mode},
                                 'opts': {'max_paths': 6000, 'max_decisions': 3000, 'fork_limit': 1 << 20, 'time_budget_s': 300}, 'weight': 20})
-    for name in (['moov', 'tseg', 'ebuttd'] if tier == 'quick' else ['moov', 'tseg', 'ebuttd', 'aseg', 'moov-v1', 'emsg-boxes', 'tseg-trun-all', 'eac3-moov']):
+    for name in (['moov', 'tseg', 'ebuttd'] if tier == 'quick' else ['moov', 'tseg', 'ebuttd', 'moov-v1', 'emsg-boxes', 'tseg-trun-all', 'eac3-moov', 'enc-moov', 'enc-seg']):
         _, words = _payload_words(name)
         for k, w in enumerate(words):
             for lazy in ((False,) if tier == 'quick' else (False, True)):
                 out.append({'name': f'mp4[{name},word@{w},{"lazy" if lazy else "eager"},word]', 'fn': h_mp4,
                             'params': {'name': name, 'box': k, 'lazy': lazy, 'mode': 'word'},
-                            'opts': {'max_paths': 6000, 'max_decisions': 3000, 'fork_limit': 4096, 'time_budget_s': 300}, 'weight': 10})
+                            'opts': {'max_paths': 6000, 'max_decisions': 400000, 'fork_limit': 4096, 'time_budget_s': 600}, 'weight': 10})
+    if tier == 'quick':
+        # encrypted fixtures: only the leading fields of each box (versions, flags, counts, sizes)
+        for name in ('enc-seg', 'enc-moov'):
+            _, words = _payload_words(name)
+            _, boxes = _flat_boxes(name)
+            for k, w in enumerate(words):
+                inner = [(st, sz) for p_, st, sz in boxes if st <= w < st + sz]
+                bst = max(inner)[0] if inner else 0
+                if w - bst >= 8 + 16:
+                    continue
+                out.append({'name': f'mp4[{name},word@{w},eager,word]', 'fn': h_mp4,
+                            'params': {'name': name, 'box': k, 'lazy': False, 'mode': 'word'},
+                            'opts': {'max_paths': 6000, 'max_decisions': 400000, 'fork_limit': 4096, 'time_budget_s': 600}, 'weight': 10})
     return out
 
 
